@@ -75,10 +75,14 @@ class C14(CacheProp):
             if op[0] == "dump" and st["n"] > 0 and tr.steps[st["n"] - 1]["op"][0] in ("sweep", "sweeprw"):
                 d = parse_dump(st["raw"])
                 cur_cleanup = (now // 10 ** 9) // bdur          # cleanupBucket(now) = storageBucket(now) - 1
+                last = int(d.get("last", ["0"])[0])
+                # keys indexed in a bucket the sweep has not taken yet (an entry applied after its own bucket was swept
+                # is indexed in the next bucket to be cleaned: it will be visited by the next sweep that has work)
+                indexed = {b.split(":")[1] for b in d.get("buckets", []) if int(b.split(":")[0]) > last}
                 for x in d.get("store", []):
                     k, _, v, exp = x.split(":")
                     exp = int(exp)
-                    if exp != 0 and (exp // 10 ** 9) // bdur + 1 <= cur_cleanup - 1:
+                    if exp != 0 and (exp // 10 ** 9) // bdur + 1 <= cur_cleanup - 1 and k not in indexed:
                         fails.append("op %d: after the sweep value %s (expired %d ns ago) is still stored: its bucket is "
                                      "behind the sweep and will never be visited" % (st["n"], v, now - exp))
         return fails
